@@ -174,7 +174,13 @@ def r17b(ctx: Context) -> None:
             rule.fail(func_key(func) + ": identifiers", where(func), f"{func.short} no longer looks the rule up by every identifier (id and names): a rule addressed by an alias is treated differently")
     # identifiers = [id, *names]
     details = prog.method(PM, "__get_plugin_details")
-    listed = [n for n in walk_local(details.node) if isinstance(n, ast.List) and norm(n) == "[plugin_id, *plugin_names]"]
+    listed = []
+    for call in [n for n in walk_local(details.node) if isinstance(n, ast.Call) and (dotted(n.func) or "").endswith("FoundPlugin")]:
+        for arg in call.args:
+            if isinstance(arg, ast.List) and len(arg.elts) == 2 and isinstance(arg.elts[0], ast.Name) and isinstance(arg.elts[1], ast.Starred) and isinstance(arg.elts[1].value, ast.Name):
+                # the id is the constructor's first argument, the names its second
+                if len(call.args) >= 2 and norm(call.args[0]) == arg.elts[0].id and norm(call.args[1]) == arg.elts[1].value.id:
+                    listed.append(arg)
     if listed:
         rule.ok(func_key(details) + ": identifier list", "[plugin_id, *plugin_names]")
     else:
